@@ -114,6 +114,30 @@ def rule_r3(facts, rep, rid="C05-R3"):
                     lits.append(d["args"][0]["v"][2:])
                     continue
             good = False
+    if not good:
+        # the same decision written over a list of schemes: `SCHEMES.iter().all(|s| !lower.starts_with(s))` or `!SCHEMES.iter().any(|s| lower.starts_with(s))`
+        neg_outer = e is not None and e.get("k") == "unary" and e.get("op") == "!"
+        inner = through_lets(ci, e["e"]) if neg_outer else e
+        if inner is not None and inner.get("k") == "mcall" and inner["name"] in ("all", "any") and inner.get("args") and inner["args"][0].get("k") == "closure":
+            body = inner["args"][0]["body"]
+            while body.get("k") == "block" and not body.get("stmts") and body.get("e") is not None:
+                body = body["e"]
+            neg_inner = body.get("k") == "unary" and body.get("op") == "!"
+            test = body["e"] if neg_inner else body
+            form_ok = (inner["name"] == "all" and neg_inner and not neg_outer) or (inner["name"] == "any" and not neg_inner and neg_outer)
+            if form_ok and test.get("k") == "mcall" and test["name"] == "starts_with":
+                recv = through_lets(ci, test["recv"])
+                while recv is not None and (recv.get("k") in ("addrof", "unary") or (recv.get("k") == "mcall" and recv["name"] in ("as_str", "as_ref", "deref"))):
+                    recv = through_lets(ci, recv.get("e") or recv.get("recv"))
+                if recv is not None and recv.get("k") == "mcall" and recv["name"] in ("to_lowercase", "to_ascii_lowercase"):
+                    # the schemes: string literals of the array / slice the chain starts from
+                    src = inner["recv"]
+                    lits = [y["v"][2:] for y in fb.walk(through_lets(ci, src)) if y.get("k") == "lit" and str(y.get("v", "")).startswith("s:")]
+                    src_l = through_lets(ci, src)
+                    while src_l is not None and src_l.get("k") == "mcall":
+                        src_l = through_lets(ci, src_l["recv"])
+                    lits = lits or [y["v"][2:] for y in fb.walk(src_l or {}) if y.get("k") == "lit" and str(y.get("v", "")).startswith("s:")]
+                    good = True
     if good and len(lits) >= 2 and "http://" in lits and "https://" in lits:
         rep.ok(rid, isref.def_ + "|shape", "negated disjunction of case-folded scheme prefixes: %s" % lits, isref.loc)
     else:
